@@ -49,9 +49,15 @@ RULE = ("random topologies (1-3 chains with explicit/absent/empty/2-char chain i
         "to/from_dataframe, save+load .h5, save+load .pdb(ter) -- each also as a SECOND store into a carrier that already "
         "holds another (often ==-equal twin) topology: .h5 appended (mode='a'), rewritten, topology attribute set twice; the "
         "same .pdb path; data frames used repeatedly; the last stored topology must come back --, add_chain/add_residue/add_atom/add_bond/insert_atom/"
-        "delete_atom_by_index on any topology}; observed: chain-wise dump with back pointers, _atoms/_residues list "
+        "delete_atom_by_index on any topology}; subset index lists ascending (60%), descending or unsorted with repeated "
+        "indices; .pdb and plain .h5 saves with 1-3 frames (MODEL/ENDMDL blocks, one CONECT block after the last model); observed: chain-wise dump with back pointers, _atoms/_residues list "
         "order, counters, bonds with identity facts, == and hash-equality matrices; a case is non-trivial when it "
-        "has a transformation and at least two atoms; distinct by hash of the concrete op list")
+        "has a transformation and at least two atoms; distinct by hash of the concrete op list.  On the live objects of "
+        "every case, model-free: Atom.__eq__ = equality of the six fields of the model's atom_eqb, Bond ==/</<=/>/>= = "
+        "comparisons of (index, index, float(type), order) with an independent type table, equal atoms/bonds/residue "
+        "fields/chain indices hash equal, sorted(bonds) sorts by that tuple; md.load(file, atom_indices=k).topology = "
+        "md.load(file).topology.subset(k) for .h5 and .pdb; from_dataframe with a 2-column bond array / bonds=None = "
+        "from_dataframe of the 4-column array with type and order erased / of no bonds")
 TRUSTED = ["harness/impl/topo_impl.py (concretises abstract ops against the live objects, dumps topologies)",
            "generator and flag probes in harness/props/C04.py",
            "bulk evaluation of the Gallina model uses its OCaml extraction (ExtrOcamlBasic/ExtrOcamlString, "
@@ -169,17 +175,22 @@ def gen_tail(rng, n):
             ops.append(["copy", f(), rng.choice(["copy", "copy.copy", "deepcopy", "traj_slice"])])
         elif k == "subset":
             dens = rng.choice([0.3, 0.6, 0.9])
-            ops.append(["subset", f(), [rng.random() < dens for _ in range(16)], rng.choice(["list", "array", "atom_slice"])])
+            # order of the index list: ascending, descending, or unsorted with repeated indices (the code tests
+            # "atom.index in atom_indices", theorem subset_v_same_set)
+            ops.append(["subset", f(), [rng.random() < dens for _ in range(16)], rng.choice(["list", "array", "atom_slice"]),
+                        rng.choice(["asc", "asc", "asc", "desc", "dup"])])
         elif k == "join":
             ops.append(["join", f(), f(), rng.random() < 0.5, rng.choice(["join", "stack"])])
         elif k == "pdb":
-            ops.append(["pdb", f(), rng.random() < 0.8, f() if rng.random() < 0.4 else None])
+            # frames: a multi-frame save writes MODEL/ENDMDL blocks and one CONECT block after the last model
+            ops.append(["pdb", f(), rng.random() < 0.8, f() if rng.random() < 0.4 else None, rng.choice([1, 1, 2, 3])])
         elif k == "pickle":
             ops.append(["pickle", f(), rng.choice(["p2", "phigh", "traj"])])
         elif k == "df":
             ops.append(["df", f(), f() if rng.random() < 0.4 else None])
         elif k == "h5":
-            ops.append(["h5", f(), f() if rng.random() < 0.5 else None, rng.choice(["a", "a", "w", "setter", "handle", "iter"])])
+            ops.append(["h5", f(), f() if rng.random() < 0.5 else None, rng.choice(["a", "a", "w", "setter", "handle", "iter"]),
+                        rng.choice([1, 1, 2, 3])])
         else:
             e = rng.choice(["insert_atom", "insert_atom", "delete", "delete", "add_bond", "add_atom", "add_residue",
                             "add_chain"])
@@ -516,7 +527,31 @@ PROBE_ORDER = ["hash", "cid_copy", "repoint", "cid_join", "cid_subset", "resseq0
 
 def run_impl(ctx, cases):
     res = ctx.run_impl("topo_impl.py", {"cases": cases})
+    tot = ctx.notes.setdefault("coverage_extra", {}).setdefault("model_free_laws_evaluated", {})
+    for k, v in (res.get("law_counts") or {}).items():
+        tot[k] = tot.get(k, 0) + int(v)
     return res["results"]
+
+
+def axes_of(ops):
+    """Which of the axes added in the deepening round a concrete op list exercises (printed into the evidence)."""
+    out = []
+    for o in ops:
+        if o[0] == "subset":
+            k = [int(i) for i in o[2]]
+            if len(set(k)) < len(k):
+                out.append("subset:repeated-indices")
+            elif k != sorted(k):
+                out.append("subset:descending")
+            else:
+                out.append("subset:ascending")
+        elif o[0] == "pdb":
+            out.append("pdb:frames=%d" % (o[4] if len(o) > 4 else 1))
+        elif o[0] == "h5":
+            mode = o[3] if len(o) > 3 else "w"
+            plain = (o[2] if len(o) > 2 else None) is None and mode not in ("handle", "iter")
+            out.append("h5:%s%s" % ("plain" if plain else mode, ",frames=%d" % o[4] if plain and len(o) > 4 else ""))
+    return out
 
 
 def detect_flags(ctx):
@@ -701,9 +736,19 @@ def check_cases(ctx, cases, det):
     if vs is None:
         return
     unexplained = []
+    dist = ctx.notes.setdefault("coverage_extra", {}).setdefault("op_axis_distribution", {})
     for i, (o, (code, resp)) in enumerate(zip(outs, vs)):
         ops = o["ops"]
         ctx.count({"ops": ops}, nontrivial=nontrivial(ops), bucket=bucket(ops))
+        for a in axes_of(ops):
+            dist[a] = dist.get(a, 0) + 1
+        for msg in o.get("laws") or []:
+            name = msg.split(":", 1)[0]
+            ctx.fail("model-free law of the topology classes / carriers violated: %s" % name,
+                     {"ops": ops, "concrete": True}, observed=msg,
+                     expected="Atom/Bond/Residue/Chain comparisons and hashes as the model assumes them; "
+                              "load(atom_indices) = subset of load; 2-column / absent bond arrays of from_dataframe",
+                     tags={"defect": "law", "law": name})
         if code == 0:
             continue
         if code == 1:
